@@ -32,6 +32,7 @@ typedef struct program
     unsigned int msg_count;
     unsigned int msg_array_size;
     char ** msg_array;
+    char * file_name; /* the name this program's diagnostics are labelled with */
     struct module * module_value;
 } program;
 
